@@ -23,7 +23,7 @@ def isWs (c : Char) : Bool :=
   (0x2000 ≤ n && n ≤ 0x200a) || n == 0x2028 || n == 0x2029 || n == 0x202f || n == 0x205f || n == 0x3000
 
 def q1 : Char := '\''
-def q2 : Char := '"' -- " (balances the quote for the harness' comment stripper)
+def q2 : Char := '"'
 
 def has (c : Char) (s : Str) : Bool := s.any (· == c)
 
